@@ -210,6 +210,19 @@ def check(ctx, report):
             unknown_directives(report, ex)
     name_value_composers(ctx, report)
     component_matching(ctx, report)
+    runs, problems, unsupported = multi_value_parse_tabulation(ctx, ctx.thorough)
+    fparse = model.cls('FieldValueMultiple').methods.get('_parse')
+    if unsupported is not None:
+        report.undecided.append('C18.R3: FieldValueMultiple._parse left the subset the tabulation understands (%s); the syntactic rules and the '
+                                'three-case evaluation of _parse_basic_params decide alone' % unsupported)
+    else:
+        report.count('C18.R3', runs)
+        report.sample({'rule': 'C18.R3', 'multi_directive_parse_runs': runs, 'domain': 'two attributes x (mandatory|default|optional) x '
+                       '(absent|canonical|upper case) x (no value|empty|value) x unknown directive x extension attribute x both orders'})
+        for kind in ('order', 'raise'):
+            hits = [d for k, d in problems if k == kind]
+            if hits:
+                report.add('C18.R3', '%s@tabulation[%s]' % (fparse.construct, kind), '%d of %d evaluated inputs: %s' % (len(hits), runs, hits[0][:400]))
     repeatable_separators(ctx, report)
     header_line_spellings(ctx, report)
     spf_network_composer(ctx, report)
@@ -372,7 +385,7 @@ def component_matching(ctx, report, rule='C18.R3'):
     ``name=value``; a directive spelled in another case is matched through _check_name and filed under its canonical name;
     an absent directive takes the attribute default; an absent mandatory one is InvalidValue"""
     import collections
-    from ..miniexec import Evaluator, Native, NativeError, Obj, Raised, Unsupported
+    from ..miniexec import Evaluator, Native, NativeError, Obj, Raised, Unsupported, class_call_hook
     model = ctx.model
     fm = model.try_cls('FieldValueMultiple')
     f = fm.methods.get('_parse_basic_params') if fm is not None else None
@@ -415,6 +428,7 @@ def component_matching(ctx, report, rule='C18.R3'):
             return 'cls'
         raise Unsupported('free name %s' % name)
     params = [a.arg for a in f.node.args.args if a.arg != 'cls']
+    hook = class_call_hook(fm, hook, model)          # helper methods of the class are evaluated from their own statements
     cases = [
         ('Report-URI', None, b'report-uri', 'a directive without a value'),
         ('report-uri', '', b'report-uri=', 'a directive with an empty value'),
@@ -446,6 +460,121 @@ def component_matching(ctx, report, rule='C18.R3'):
                 report.add(rule, f.construct + '@mandatory', 'an absent mandatory directive raises %s' % e.what)
     except (Unsupported, Raised) as e:
         report.add(rule, f.construct + '@tabulation', 'the component matcher left the subset the tabulation understands: %s' % e)
+
+
+def multi_value_parse_tabulation(ctx, thorough=False):
+    """FieldValueMultiple._parse (with the helpers it calls, from their own statements) evaluated (sa.miniexec) on a model
+    field class with two basic attributes and an optional extension attribute, over every combination of: attribute
+    mandatory / defaulted, validator optional or not, the directive absent / spelled canonically / in upper case, its value
+    absent (None) / empty / present, an unknown directive present or not, and both orders of the directives.  Every access to
+    the dictionaries involved depends on the input only through key membership and _check_name, which the domain exhausts.
+    Returns (runs, problems, unsupported): problems are (kind, description) with kind in {'KeyError', 'order', 'raise'}"""
+    import collections
+    import itertools
+    from ..miniexec import Evaluator, Native, NativeError, Obj, Raised, Unsupported, class_call_hook
+    model = ctx.model
+    fm = model.try_cls('FieldValueMultiple')
+    f = fm.methods.get('_parse') if fm is not None else None
+    if f is None:
+        return 0, [], 'FieldValueMultiple._parse vanished'
+
+    class InvalidType(NativeError):
+        pass
+
+    class Component(Native):
+        def __init__(self, canonical):
+            self.canonical = canonical
+
+        def _check_name(self, name):
+            if name.lower() != self.canonical.lower():
+                raise InvalidType()
+
+        def get_canonical_name(self):
+            return self.canonical
+
+        def parse_exact_size(self, data):
+            return ('parsed', self.canonical, bytes(data).lower() if b'=' not in bytes(data) else bytes(data))
+
+    class Optional(Native):
+        def __init__(self, inner):
+            self.validator = inner
+    NOTHING = Obj(name='NOTHING')
+    state = {}
+
+    class Fields(Native):
+        def __call__(self, **params):
+            return ('object', tuple(sorted(params.items(), key=lambda kv: kv[0])))
+
+    def extra(n, ev):
+        d = ast.unparse(n.func)
+        if d == 'attr.fields_dict':
+            return collections.OrderedDict(state['fields'])
+        if d == 'is_validator_optional':
+            return isinstance(ev.ev(n.args[0]), Optional)
+        if d == 'cls._get_header_value_list_class':
+            return Obj(parse_exact_size=lambda data: Obj(value=collections.OrderedDict(state['components'])))
+        if d == 'cls' and not n.args:
+            return ('object', tuple(sorted(((k.arg, ev.ev(k.value)) for k in n.keywords if k.arg), key=lambda kv: kv[0]))) if all(k.arg for k in n.keywords) else \
+                ('object', tuple(sorted(ev.ev(n.keywords[0].value).items(), key=lambda kv: kv[0])))
+        if d == 'len':
+            return 0
+        if d == 'issubclass':
+            return False
+        return NotImplemented
+
+    def names(name):
+        if name == 'attr.NOTHING':
+            return NOTHING
+        if name == 'cls':
+            return 'cls'
+        raise Unsupported('free name %s' % name)
+    hook = class_call_hook(fm, extra, model)
+    runs, problems = 0, []
+    comps = {'a': Component('alpha-x'), 'b': Component('beta')}
+    spell = {'canonical': lambda c: c, 'upper': lambda c: c.upper()}
+    field_kinds = [('mandatory', False), ('default', False), ('default', True)]            # (default kind, optional validator)
+    presence = [None] + [(sp, v) for sp in ('canonical', 'upper') for v in (None, '', 'x')]
+    try:
+        for ka, kb in itertools.product(field_kinds, repeat=2):
+            for ext in (False, True):
+                fields = []
+                for nm, (dk, opt) in (('a', ka), ('b', kb)):
+                    val = Obj(type=comps[nm])
+                    fields.append((nm, Obj(name=nm, validator=Optional(val) if opt else val, default=NOTHING if dk == 'mandatory' else None,
+                                           metadata={})))
+                if ext:
+                    fields.append(('extensions', Obj(name='extensions', validator=Optional(Obj(type=lambda c: ('wrapped', tuple(c.items())))), default=None,
+                                                     metadata={'extension': True})))
+                state['fields'] = fields
+                for pa, pb in itertools.product(presence, repeat=2):
+                    for unknown in (False, True):
+                        items = []
+                        for nm, pr in (('a', pa), ('b', pb)):
+                            if pr is not None:
+                                items.append((spell[pr[0]](comps[nm].canonical), pr[1]))
+                        if unknown:
+                            items.append(('x-unknown', '1'))
+                        results = []
+                        for order in ([items, list(reversed(items))] if len(items) > 1 else [items]):
+                            state['components'] = order
+                            runs += 1
+                            try:
+                                got = Evaluator({'parsable': b''}, hook, names).function(f.node)
+                                results.append(('ok', got))
+                            except Raised as e:
+                                results.append(('raise', e.what.split('(')[0]))
+                                if 'KeyError' in e.what or 'IndexError' in e.what:
+                                    problems.append(('KeyError', '%s with fields %s and directives %r' % (e.what, [(k, v) for k, v in (('a', ka), ('b', kb))], order)))
+                                elif 'InvalidValue' not in e.what and 'InvalidType' not in e.what:
+                                    problems.append(('raise', '%s with directives %r' % (e.what, order)))
+                        if len(results) == 2 and results[0] != results[1]:
+                            problems.append(('order', 'the directives %r and the same in reverse order parse to different results (%r / %r)' % (
+                                items, results[0], results[1])))
+                        if not thorough and len(problems) > 20:
+                            return runs, problems, None
+    except Unsupported as e:
+        return runs, problems, str(e)
+    return runs, problems, None
 
 
 def unknown_directives(report, ex):
